@@ -87,6 +87,12 @@ def make_dist(spec):
     if k == 'weib': return D.Weibull(spec['scale'], spec['shape'])
     if k == 'logn': return D.Lognormal(spec['mean'], spec['sd'])
     if k == 'sum': return make_dist(spec['l']) + make_dist(spec['r'])
+    if k == 'norm': return D.Normal(spec['mean'], spec['sd'])
+    if k == 'coxian': return D.Coxian(list(spec['rates']), list(spec['probs']))
+    if k == 'hypererl': return D.HyperErlang(list(spec['rates']), list(spec['probs']), list(spec['lengths']))
+    if k == 'mix': return D.MixtureDistribution([make_dist(x) for x in spec['dists']], list(spec['probs']))
+    if k == 'pint': return D.PoissonIntervals(list(spec['rates']), list(spec['endpoints']), spec['max'])
+    if k == 'prod': return make_dist(spec['l']) * make_dist(spec['r'])
     if k == 'timedep': return TimeDep(list(spec['vals']), spec['period'])
     if k == 'statedep': return StateDep(spec['base'], spec['slope'])
     if k == 'poisson': return D.Poisson(spec['rate'])
@@ -123,10 +129,19 @@ def rand_time_dist(r, lattice, scale=1.0, allow_zero=False, grid=0.5):
                 'r': {'d': 'uni', 'a': 0.01, 'b': round(0.5 * scale, 3)}}
     if c < 0.9:
         return {'d': 'hyp', 'rates': [round(2.0 / scale, 3), round(0.7 / scale, 3)], 'probs': [0.5, 0.5]}
-    if c < 0.94:
+    if c < 0.92:
         return {'d': 'weib', 'scale': round(r.uniform(0.4, 1.5) * scale, 3), 'shape': round(r.uniform(0.8, 2.5), 2)}
-    a = round(r.uniform(0.05, 0.5) * scale, 3)
-    return {'d': 'tri', 'a': a, 'm': round(a + 0.3 * scale, 3), 'b': round(a + 1.0 * scale, 3)}
+    if c < 0.96:
+        a = round(r.uniform(0.05, 0.5) * scale, 3)
+        return {'d': 'tri', 'a': a, 'm': round(a + 0.3 * scale, 3), 'b': round(a + 1.0 * scale, 3)}
+    c2 = r.random()
+    if c2 < 0.15: return {'d': 'logn', 'mean': round(r.uniform(-1.0, 0.0), 2), 'sd': 0.5}
+    if c2 < 0.3: return {'d': 'norm', 'mean': round(0.8 * scale, 3), 'sd': round(0.3 * scale, 3)}
+    if c2 < 0.45: return {'d': 'emp', 'obs': [round(r.uniform(0.1, 2.0) * scale, 3) for _ in range(5)]}
+    if c2 < 0.6: return {'d': 'coxian', 'rates': [round(2.0 / scale, 3), round(1.0 / scale, 3), round(3.0 / scale, 3)], 'probs': [0.4, 0.5, 1.0]}
+    if c2 < 0.75: return {'d': 'hypererl', 'rates': [round(3.0 / scale, 3), round(1.5 / scale, 3)], 'probs': [0.4, 0.6], 'lengths': [2, 1]}
+    if c2 < 0.9: return {'d': 'mix', 'dists': [{'d': 'exp', 'rate': round(2.0 / scale, 3)}, {'d': 'det', 'v': round(0.6 * scale, 3)}], 'probs': [0.6, 0.4]}
+    return {'d': 'prod', 'l': {'d': 'uni', 'a': 0.5, 'b': 1.5}, 'r': {'d': 'det', 'v': round(0.7 * scale, 3)}}
 
 
 BATCH_CHOICES = [{'d': 'det', 'v': 2}, {'d': 'seq', 's': [1, 3, 0, 2]},
